@@ -228,7 +228,10 @@ def run(ctx):
         ps = par_sizes[idx % len(par_sizes)]
         try:
             ds = MazeDataset.generate(cfg, gen_parallel=True, pool_kwargs=dict(processes=ps))
-        except ValueError:
+        except ValueError as ex:
+            if not ep and case.get("gen") in ("dfs", "prim", "wilson") and not case.get("kwargs"):
+                # a spanning tree and default endpoint options: every cell pair is connected, nothing documents a ValueError here
+                ctx.violate(f"parallel (pool {ps}) generation of {case} with default endpoint options raised ValueError: {str(ex)[:160]}", dict(case=case, seed=cfg.seed, pool=ps))
             ctx.count("documented_ValueError_parallel"); continue
         ctx.count(f"pool={ps}")
         if len(ds) != cfg.n_mazes:
